@@ -65,6 +65,9 @@ func VerifC12_Crash() {
 	// restart with the origin unreachable
 	w.restart()
 	verifrt.Assert(verifrt.TempResidue("/work") == 0, "no temporary artefact survives the start-up sweep")
+	for _, p := range verifrt.Children("/work") {
+		verifrt.Assert(p == "/work/"+idOfCDP(url1), "after the start-up sweep the work_dir holds nothing but live stores (no moved-aside or staging database under any name)")
+	}
 	servers[url1] = &server{up: false}
 	_, _ = w.repo.AddCRL(loc, chainsOf(cert("CN=I1", sOld)))
 	e := w.entryFor(url1)
